@@ -36,11 +36,11 @@ type c14Case struct {
 type c14Obs struct {
 	// kind "bound": summary of a long stream (Max aliases, Distinct > Max distinct topics, then repeats)
 	Recv, AliasMin, AliasMax, Mismatch, Undecodable int
-	Out    [][2]*int `json:"out,omitempty"` // (topic idx or nil, alias or nil)
-	Routed []int     `json:"routed,omitempty"`
-	Term   bool      `json:"term,omitempty"`
-	Reason int       `json:"reason,omitempty"`
-	Err    string    `json:"err,omitempty"`
+	Out                                             [][2]*int `json:"out,omitempty"` // (topic idx or nil, alias or nil)
+	Routed                                          []int     `json:"routed,omitempty"`
+	Term                                            bool      `json:"term,omitempty"`
+	Reason                                          int       `json:"reason,omitempty"`
+	Err                                             string    `json:"err,omitempty"`
 }
 
 type c14Prop struct{}
@@ -56,6 +56,10 @@ func (p *c14Prop) Parallel() int { return 8 }
 func ip(i int) *int { return &i }
 
 func (p *c14Prop) Gen(r *Rng, i int, tier string) interface{} {
+	if i%25 == 12 {
+		// unacknowledged aliased messages across a reconnect
+		return &c14Case{Kind: "resume", V5: true, Max: []int{1, 2, 5}[r.Intn(3)], Distinct: 1 + r.Intn(4), Repeat: 1 + r.Intn(5)}
+	}
 	if i%50 == 49 {
 		// every alias value gets bound, more topics follow, early topics recur
 		m := []int{3, 17, 255, 256}[r.Intn(4)]
@@ -161,6 +165,9 @@ func (p *c14Prop) Run(ci interface{}) interface{} {
 	defer b.Close(10 * time.Second)
 	if c.Kind == "bound" {
 		return p.runBound(c, b)
+	}
+	if c.Kind == "resume" {
+		return p.runResume(c, b)
 	}
 	if c.Kind == "out" {
 		ver := mqttp.ProtocolV311
@@ -329,6 +336,9 @@ func cOptInt(p *int) string {
 func (p *c14Prop) Coq(ci interface{}, oi interface{}) string {
 	c := ci.(*c14Case)
 	o := oi.(*c14Obs)
+	if c.Kind == "resume" {
+		return fmt.Sprintf("(CResume %s %s %s %s %s)", cN(uint64(c.Distinct+c.Repeat)), cN(uint64(o.Recv)), cN(uint64(o.Mismatch)), cN(uint64(o.Undecodable)), cBool(o.Err == ""))
+	}
 	if c.Kind == "bound" {
 		return fmt.Sprintf("(CBound %s %s %s %s %s %s %s %s %s)", cN(uint64(c.Max)), cN(uint64(c.Distinct)), cN(uint64(c.Repeat)), cN(uint64(o.Recv)), cN(uint64(o.AliasMin)), cN(uint64(o.AliasMax)), cN(uint64(o.Mismatch)), cN(uint64(o.Undecodable)), cBool(o.Err == ""))
 	}
@@ -360,6 +370,98 @@ func (p *c14Prop) Coq(ci interface{}, oi interface{}) string {
 
 // runBound: every alias value the client allows gets bound and more topics follow; what the subscriber sees
 // must resolve, under its own alias table, to the topic that was published (the payload carries its number)
+// resume: Distinct topics, Repeat+Distinct QoS 1 messages round-robin over them to a durable v5 subscriber with
+// Topic Alias Maximum Max that acknowledges nothing; it drops and reconnects: the retransmissions must resolve
+func (p *c14Prop) runResume(c *c14Case, b *Broker) interface{} {
+	obs := &c14Obs{}
+	forever := uint32(0xFFFFFFFF)
+	connect := func() (*Auto, error) {
+		sc := b.Dial()
+		if _, err := sc.Connect(ConnectOpts{ID: "sub", Ver: mqttp.ProtocolV50, Clean: false, Expiry: &forever, AliasMax: uint16(c.Max)}); err != nil {
+			return nil, err
+		}
+		return sc.Auto(true), nil
+	}
+	s, err := connect()
+	if err != nil {
+		obs.Err = "sub: " + err.Error()
+		return obs
+	}
+	_ = s.SendL(mkSubscribe(mqttp.ProtocolV50, 1, []string{"al/#"}, []byte{1}))
+	if !s.WaitFor(5*time.Second, func() bool { return len(s.Others) >= 1 }) {
+		obs.Err = "no suback"
+		return obs
+	}
+	pc := b.Dial()
+	if _, err := pc.Connect(ConnectOpts{ID: "pub", Ver: mqttp.ProtocolV311, Clean: true}); err != nil {
+		obs.Err = "pub: " + err.Error()
+		return obs
+	}
+	pa := pc.Auto(false)
+	total := c.Distinct + c.Repeat
+	for k := 0; k < total; k++ {
+		t := k % c.Distinct
+		_ = pa.SendL(mkPublish(mqttp.ProtocolV311, fmt.Sprintf("al/%d", t), []byte{byte(t >> 16), byte(t >> 8), byte(t)}, 1, false, uint16(k+1)))
+	}
+	if !s.WaitFor(10*time.Second, func() bool { return len(s.Pubs) >= total }) {
+		obs.Err = "the first deliveries did not all arrive"
+		return obs
+	}
+	d0 := b.Met.Disconnected()
+	s.Close()
+	for dl := time.Now().Add(5 * time.Second); time.Now().Before(dl) && b.Met.Disconnected() == d0; {
+		time.Sleep(time.Millisecond)
+	}
+	time.Sleep(30 * time.Millisecond)
+	var s2 *Auto
+	for try := 0; try < 100; try++ {
+		if s2, err = connect(); err == nil {
+			break
+		}
+		time.Sleep(5 * time.Millisecond)
+	}
+	if err != nil {
+		obs.Err = "reconnect: " + err.Error()
+		return obs
+	}
+	s2.WaitFor(5*time.Second, func() bool { return len(s2.Pubs) >= total || s2.closed })
+	s2.mu.Lock()
+	defer s2.mu.Unlock()
+	obs.Recv = len(s2.Pubs)
+	if s2.closed && obs.Recv < total {
+		obs.Undecodable = total - obs.Recv // the reader gave up on a packet it could not decode / the broker closed
+	}
+	table := map[int]string{}
+	for i, m := range s2.Pubs {
+		if len(m.Payload()) != 3 {
+			obs.Undecodable++
+			continue
+		}
+		truth := fmt.Sprintf("al/%d", int(m.Payload()[0])<<16|int(m.Payload()[1])<<8|int(m.Payload()[2]))
+		alias := -1
+		if prop := m.PropertyGet(mqttp.PropertyTopicAlias); prop != nil {
+			if v, e := prop.AsShort(); e == nil {
+				alias = int(v)
+			}
+		}
+		topic := m.Topic()
+		if i < len(s2.AliasOnly) && s2.AliasOnly[i] {
+			topic = ""
+		}
+		if alias >= 0 {
+			if topic != "" {
+				table[alias] = topic
+			} else {
+				topic = table[alias]
+			}
+		}
+		if topic != truth || !m.Dup() {
+			obs.Mismatch++
+		}
+	}
+	return obs
+}
+
 func (p *c14Prop) runBound(c *c14Case, b *Broker) interface{} {
 	obs := &c14Obs{}
 	sc := b.Dial()
@@ -437,6 +539,9 @@ func (p *c14Prop) runBound(c *c14Case, b *Broker) interface{} {
 
 func (p *c14Prop) Class(ci interface{}, oi interface{}) (string, bool) {
 	c := ci.(*c14Case)
+	if c.Kind == "resume" {
+		return "resume-unacknowledged-with-aliases", true
+	}
 	if c.Kind == "bound" {
 		return "bound", true
 	}
